@@ -66,8 +66,12 @@ func runSelfRec(c *Ctx) {
 				out := fl.next.clone()
 				out.addAll(fl.ret)
 				_, escapes := out[false]
-				if at == nil || escapes {
-					c.OK(key, fd.Pos(), "")
+				if at == nil {
+					c.OKTrivial(key, fd.Pos(), "no call to itself with unchanged receiver and arguments")
+					continue
+				}
+				if escapes {
+					c.OK(key, fd.Pos(), "calls itself with unchanged arguments, but some path returns without doing so")
 					continue
 				}
 				c.Bad(key, at.Pos(), "every path through %s calls %s again with the same receiver and arguments", FuncName(fd), FuncName(fd))
